@@ -36,76 +36,213 @@ func (c *Ctx) serverScenario(vals map[string]byte, cmd string, generic bool) Sce
 		}
 		return v
 	}
-	return func(info *types.Info, body ast.Node) func(e ast.Expr) byte {
-		srvCall := func(x ast.Expr, name string) bool {
-			call, ok := ast.Unparen(x).(*ast.CallExpr)
-			if !ok {
+	// The command of the scenario is the value of msg.Command() at the entry of the function. A call that may
+	// rewrite the message (TIMEOUT strips its prefix: rewriteTimeoutMsg assigns msg.Args) ends that: from there
+	// on msg.Command() is unknown on this path, while a local that received it earlier keeps the entry value.
+	mutators := c.messageMutators()
+	return Scenario{
+		Mark: func(fg *FlowGraph) func(n ast.Node, facts map[identFact]bool) map[identFact]bool {
+			info := fg.Info
+			return func(n ast.Node, facts map[identFact]bool) map[identFact]bool {
+				set := func(k identFact, v bool) {
+					nf := map[identFact]bool{}
+					for kk, vv := range facts {
+						nf[kk] = vv
+					}
+					nf[k] = v
+					facts = nf
+				}
+				// x := msg.Command() while the message is unchanged: x holds the entry command
+				if as, ok := n.(*ast.AssignStmt); ok && len(as.Lhs) == len(as.Rhs) {
+					for i, l := range as.Lhs {
+						if id, ok := ast.Unparen(l).(*ast.Ident); ok && isCommandCall(info, as.Rhs[i]) && !facts[identFact{msgRewritten, false}] {
+							if o := info.ObjectOf(id); o != nil {
+								set(identFact{o, false}, true)
+							}
+						}
+					}
+				}
+				// a rewrite counts once the command has been observed on this path (the scenario fixes the value
+				// the function first sees: what happens to the raw arguments before that is part of the input)
+				observes := false
+				inspectNoLit(n, func(m ast.Node) bool {
+					if call, ok := m.(*ast.CallExpr); ok {
+						if isCommandCall(info, call) {
+							observes = true
+						}
+						if f := callee(info, call); f != nil && mutators[f] && facts[identFact{cmdObserved, false}] {
+							set(identFact{msgRewritten, false}, true)
+						}
+					}
+					if as, ok := m.(*ast.AssignStmt); ok {
+						for _, l := range as.Lhs {
+							l = ast.Unparen(l)
+							if ix, ok := l.(*ast.IndexExpr); ok {
+								l = ix.X
+							}
+							if f := selField(info, l); f != nil && fieldOfMessage(c, f) && facts[identFact{cmdObserved, false}] {
+								set(identFact{msgRewritten, false}, true)
+							}
+						}
+					}
+					return true
+				})
+				if observes && !facts[identFact{cmdObserved, false}] {
+					set(identFact{cmdObserved, false}, true)
+				}
+				return facts
+			}
+		},
+		Atom: func(fg *FlowGraph) func(e ast.Expr) byte {
+			info := fg.Info
+			srvCall := func(x ast.Expr, name string) bool {
+				call, ok := ast.Unparen(x).(*ast.CallExpr)
+				if !ok {
+					return false
+				}
+				f := callee(info, call)
+				return f != nil && f.Name() == name && f.Pkg() != nil && f.Pkg().Path() == modPath+"/internal/server"
+			}
+			// isCmd: the expression denotes the entry command on this path
+			isCmd := func(x ast.Expr) bool {
+				x = ast.Unparen(x)
+				if isCommandCall(info, x) {
+					return !fg.curFacts[identFact{msgRewritten, false}]
+				}
+				if id, ok := x.(*ast.Ident); ok {
+					if o := info.ObjectOf(id); o != nil && isStringType(o.Type()) {
+						return fg.curFacts[identFact{o, false}]
+					}
+				}
 				return false
 			}
-			f := callee(info, call)
-			return f != nil && f.Name() == name && f.Pkg() != nil && f.Pkg().Path() == modPath+"/internal/server"
-		}
-		isCmd := func(x ast.Expr) bool {
-			x = ast.Unparen(x)
-			if isCommandCall(info, x) {
+			return func(e ast.Expr) byte {
+				e = ast.Unparen(e)
+				switch x := e.(type) {
+				case *ast.SelectorExpr:
+					if authd != nil && selField(info, x) == authd {
+						return get("authd", false)
+					}
+				case *ast.CallExpr:
+					switch {
+					case srvCall(x, "readOnly"):
+						return get("readonly", false)
+					case srvCall(x, "caughtUpOnce"):
+						return get("caughtup", false)
+					}
+					if se, ok := ast.Unparen(x.Fun).(*ast.SelectorExpr); ok && se.Sel.Name == "Load" && loaded != nil && selField(info, se.X) == loaded {
+						return get("loaded", false)
+					}
+				case *ast.BinaryExpr:
+					if x.Op != token.EQL && x.Op != token.NEQ {
+						return '?'
+					}
+					for _, side := range [][2]ast.Expr{{x.X, x.Y}, {x.Y, x.X}} {
+						s, isConst := constString(info, side[1])
+						if !isConst {
+							continue
+						}
+						if s == "" {
+							switch {
+							case srvCall(side[0], "followHost"):
+								return get("follower", x.Op == token.EQL)
+							case srvCall(side[0], "requirePass"):
+								return get("requirepass", x.Op == token.EQL)
+							case msgAuth != nil && selField(info, side[0]) == msgAuth:
+								return get("msgauth", x.Op == token.EQL)
+							}
+						}
+						if isCmd(side[0]) {
+							if !generic && cmd == "" {
+								return '?'
+							}
+							eq := !generic && s == cmd
+							if eq == (x.Op == token.EQL) {
+								return '1'
+							}
+							return '0'
+						}
+					}
+				}
+				return '?'
+			}
+		},
+	}
+}
+
+// msgRewritten marks, among the facts of a path, that the message may have been rewritten.
+var msgRewritten types.Object = types.NewVar(token.NoPos, nil, "§message-rewritten", types.Typ[types.Bool])
+
+// cmdObserved marks that msg.Command() has been evaluated on this path.
+var cmdObserved types.Object = types.NewVar(token.NoPos, nil, "§command-observed", types.Typ[types.Bool])
+
+func fieldOfMessage(c *Ctx, f *types.Var) bool {
+	return f == c.Field("internal/server", "Message", "Args") || f == c.Field("internal/server", "Message", "_command")
+}
+
+var msgMutatorCache map[*types.Func]bool
+
+// messageMutators: functions of internal/server that assign Args or _command of a *Message parameter
+// (directly, or by calling such a function with it).
+func (c *Ctx) messageMutators() map[*types.Func]bool {
+	if msgMutatorCache != nil {
+		return msgMutatorCache
+	}
+	out := map[*types.Func]bool{}
+	for changed := true; changed; {
+		changed = false
+		for _, fn := range c.AllFuncs("internal/server") {
+			if out[fn.Obj] {
+				continue
+			}
+			info := fn.Info()
+			params := map[types.Object]bool{}
+			for _, p := range fn.Decl.Type.Params.List {
+				for _, nm := range p.Names {
+					if o := info.ObjectOf(nm); o != nil {
+						if pt, ok := o.Type().(*types.Pointer); ok && isNamedType(pt.Elem(), modPath+"/internal/server", "Message") {
+							params[o] = true
+						}
+					}
+				}
+			}
+			if len(params) == 0 {
+				continue
+			}
+			hit := false
+			ast.Inspect(fn.Decl.Body, func(n ast.Node) bool {
+				switch x := n.(type) {
+				case *ast.AssignStmt:
+					for _, l := range x.Lhs {
+						l = ast.Unparen(l)
+						if ix, ok := l.(*ast.IndexExpr); ok {
+							l = ix.X
+						}
+						if se, ok := ast.Unparen(l).(*ast.SelectorExpr); ok && fieldOfMessage(c, selField(info, se)) {
+							if id, ok := ast.Unparen(se.X).(*ast.Ident); ok && params[info.ObjectOf(id)] {
+								hit = true
+							}
+						}
+					}
+				case *ast.CallExpr:
+					if f := callee(info, x); f != nil && out[f] {
+						for _, a := range x.Args {
+							if id, ok := ast.Unparen(a).(*ast.Ident); ok && params[info.ObjectOf(id)] {
+								hit = true
+							}
+						}
+					}
+				}
 				return true
+			})
+			if hit {
+				out[fn.Obj] = true
+				changed = true
 			}
-			if _, ok := x.(*ast.Ident); ok {
-				return isCommandCall(info, resolveLocal(info, body, x))
-			}
-			return false
-		}
-		return func(e ast.Expr) byte {
-			e = ast.Unparen(e)
-			switch x := e.(type) {
-			case *ast.SelectorExpr:
-				if authd != nil && selField(info, x) == authd {
-					return get("authd", false)
-				}
-			case *ast.CallExpr:
-				switch {
-				case srvCall(x, "readOnly"):
-					return get("readonly", false)
-				case srvCall(x, "caughtUpOnce"):
-					return get("caughtup", false)
-				}
-				if se, ok := ast.Unparen(x.Fun).(*ast.SelectorExpr); ok && se.Sel.Name == "Load" && loaded != nil && selField(info, se.X) == loaded {
-					return get("loaded", false)
-				}
-			case *ast.BinaryExpr:
-				if x.Op != token.EQL && x.Op != token.NEQ {
-					return '?'
-				}
-				for _, side := range [][2]ast.Expr{{x.X, x.Y}, {x.Y, x.X}} {
-					s, isConst := constString(info, side[1])
-					if !isConst {
-						continue
-					}
-					if s == "" {
-						switch {
-						case srvCall(side[0], "followHost"):
-							return get("follower", x.Op == token.EQL)
-						case srvCall(side[0], "requirePass"):
-							return get("requirepass", x.Op == token.EQL)
-						case msgAuth != nil && selField(info, side[0]) == msgAuth:
-							return get("msgauth", x.Op == token.EQL)
-						}
-					}
-					if isCmd(side[0]) {
-						if !generic && cmd == "" {
-							return '?'
-						}
-						eq := !generic && s == cmd
-						if eq == (x.Op == token.EQL) {
-							return '1'
-						}
-						return '0'
-					}
-				}
-			}
-			return '?'
 		}
 	}
+	msgMutatorCache = out
+	return out
 }
 
 // fallsOutOfSwitch: in the scenario, can control leave the switch sw of fn (reach a statement after it)?
